@@ -196,11 +196,14 @@ func zsorted(mp map[string]float64) []zpair {
 	return ps
 }
 
-// FmtScore renders a score; negative zero is printed as 0 (the order-preserving score
-// encoding of the implementation does not keep the sign of zero; the two compare equal).
+// FmtScore renders a score the way Redis does: infinities as inf / -inf, the sign of a
+// zero kept, everything else in the shortest form that reads back as the same number.
 func FmtScore(f float64) string {
-	if f == 0 {
-		f = 0
+	switch {
+	case math.IsInf(f, 1):
+		return "inf"
+	case math.IsInf(f, -1):
+		return "-inf"
 	}
 	return strconv.FormatFloat(f, 'g', -1, 64)
 }
@@ -1140,10 +1143,13 @@ func (m *Model) applyZSet(name string, a []string, sec int64) Val {
 		zz := m.zsetW(k, sec)
 		n := int64(0)
 		for _, p := range ps {
-			if _, ok := zz.m[p.m]; !ok {
+			old, ok := zz.m[p.m]
+			if !ok {
 				n++
 			}
-			zz.m[p.m] = p.s
+			if !ok || old != p.s { // an equal score (0 over -0) is not rewritten
+				zz.m[p.m] = p.s
+			}
 		}
 		return Int(n)
 	case "zincrby":
@@ -1154,11 +1160,12 @@ func (m *Model) applyZSet(name string, a []string, sec int64) Val {
 		if !ok {
 			return Err("not a float")
 		}
-		cur := float64(0)
+		ns := d // a new member takes the increment as it is (-0 stays -0)
 		if z != nil {
-			cur = z.m[a[2]]
+			if cur, ok := z.m[a[2]]; ok {
+				ns = cur + d
+			}
 		}
-		ns := cur + d
 		if math.IsNaN(ns) {
 			return Err("resulting score is not a number")
 		}
